@@ -251,7 +251,11 @@ def run_oracles(ctx, cases, outputs):
         if l.startswith("?"):
             res.append(None)
         else:
-            res.append({k: v == "1" for k, v in (x.split("=") for x in l.split())})
+            d = {}
+            for x in l.split():
+                k, v = x.split("=", 1)
+                d[k] = (v == "1") if k != "rej" else ([] if v == "-" else [tuple(int(y) for y in r.split(":")) for r in v.split(";")])
+            res.append(d)
     return res
 
 
